@@ -50,7 +50,7 @@ def panic_guards(b, bb):
 @rule("K1", cfgs=EXPL, doc="kernel confinement of ProvenEqRaw")
 def k1(ctx):
     crate = ctx.lib()
-    adt = crate.adts.get("explain::proof::ProvenEqRaw")
+    adt = crate.adt_named("explain::proof::ProvenEqRaw")
     if adt is None:
         raise mir.AnchorMissing("explain::proof::ProvenEqRaw")
     for f in adt["variants"][0]["fields"]:
